@@ -40,3 +40,16 @@ package entity
 //@ func Id.String
 //@   purefn
 //@   ensures result == string(i)
+
+// Resolve dispatches on the type parameter; a resolver that answers without error hands back an entity.
+//@ func Resolve
+//@   trusted
+//@   ensures result1 == nil ==> result != nil
+//@   props C07
+
+// DeriveId is a hash: an uninterpreted pure function of the bytes (collision freedom is not assumed).
+//@ func DeriveId
+//@   trusted
+//@   modifies nothing
+//@   ensures result != "" && result != UnsetId
+//@   props C04 C07
